@@ -2,7 +2,7 @@ From Coq Require Import ZArith String List.
 Import ListNotations.
 
 Inductive cmpop := CLt | CLtE | CGt | CGtE | CEq | CNotEq | CIs | CIsNot | CIn | CNotIn.
-Inductive binop := Add | Sub | Mul | Div | Pow | Mod.
+Inductive binop := Add | Sub | Mul | Div | Pow | Mod | BitAnd.
 Inductive unop := USub | UNot.
 Inductive boolop := BAnd | BOr.
 
@@ -38,6 +38,7 @@ Inductive stmt :=
 | STry (body handler : list stmt)
 | SPass
 | SAssert (c : expr)
+| SWith (ctx : expr) (name : option string) (body : list stmt)     (* with ctx as name: body *)
 | SUnsupported (s : string).
 
 Record fundef := FunDef {
